@@ -6,8 +6,8 @@ import RsslVerif.Model.FormatStmt
 `formatter/src/formatter.rs`.  Line breaks are spaces (see `Model/FormatStmt.lean`).
 
 Not in the tree types (the driver answers `unsupported`): template parameter lists, `const` / `volatile` methods,
-register / packoffset annotations and more than one annotation per position, struct base types (which the formatter does
-not print at all — known finding), enums, constant buffers, globals, namespaces.
+register / packoffset annotations and more than one annotation per position, enums, constant buffers, globals,
+namespaces.  Struct base types are in the tree type since the formatter prints them (2e907a1).
 A semantic is its printed spelling (`SV_Position`, `TEXCOORD0`, …).
 -/
 namespace RsslVerif.Model.FormatDef
@@ -39,9 +39,13 @@ inductive Member where
   | var (attrs : List Attr) (v : VarDef)
   | method (f : FnDef)
 
-/-- `ast::StructDefinition` without template parameters and base types -/
+/-- a base type of a struct: an `ast::Type` (modifiers, name, template arguments) -/
+abbrev BaseTy := List TypeMod × String × TArgs
+
+/-- `ast::StructDefinition` without template parameters -/
 structure StructDef where
   name : String
+  bases : List BaseTy
   members : List Member
 
 /-- `format_location_annotations` on at most one semantic: ` : NAME` -/
@@ -55,7 +59,7 @@ def fmtParam (p : Param) : List Piece :=
   fmtTy p.mods p.name p.targs (startsTok d false) ++ (d ++ (fmtSem p.sem ++
     (match p.dflt with
      | none => []
-     | some e => .sp :: pp .Equals :: .sp :: fmtExprX e)))
+     | some e => .sp :: pp .Equals :: .sp :: fmtSubX e paramDefaultPrec paramDefaultSide)))
 
 def fmtParams : List Param → List Piece
   | [] => []
@@ -79,9 +83,20 @@ def fmtMembers : List Member → List Piece
   | [] => []
   | m :: r => fmtMember m ++ fmtMembers r
 
+/-- the base types after ` : `: `A, B` (a closing `>` of the last one is followed by the line break) -/
+def fmtBaseList : List BaseTy → List Piece
+  | [] => []
+  | [b] => fmtTy b.1 b.2.1 b.2.2 false
+  | b :: c :: r => fmtTy b.1 b.2.1 b.2.2 true ++ (comma :: .sp :: fmtBaseList (c :: r))
+
+/-- ` : A, B` between the name and the opening brace (2e907a1; nothing when there are no base types, and nothing at all
+when the formatter does not print them: `structPrintsBaseTypes`) -/
+def fmtBases (bs : List BaseTy) : List Piece :=
+  if structPrintsBaseTypes && !bs.isEmpty then .sp :: pp .Colon :: .sp :: fmtBaseList bs else []
+
 /-- `format_struct` -/
 def fmtStruct (s : StructDef) : List Piece :=
-  kw .Struct "struct" :: .sp :: .t (.id s.name) s.name :: .sp :: pp .LeftBrace ::
-    (fmtMembers s.members ++ [.sp, pp .RightBrace, semi])
+  kw .Struct "struct" :: .sp :: .t (.id s.name) s.name :: (fmtBases s.bases ++ (.sp :: pp .LeftBrace ::
+    (fmtMembers s.members ++ [.sp, pp .RightBrace, semi])))
 
 end RsslVerif.Model.FormatDef
